@@ -178,6 +178,31 @@ static int family_bounds(int shard, int nshards)
         return 0;
 }
 
+/* every byte value at every position of short digit strings (control bytes, high bytes, punctuation next to digits) */
+static int family_bytes(int shard, int nshards)
+{
+        static const char *TPL[3][7] = {
+                {"?", "1?", "?1", "-?", "-1?", "1?2", "12?"},
+                {"?", "1?", "?1", "2?5", "25?", "?55", "1?2"},
+                {"?x1", "0?1", "0x?", "0x1?", "0x?1", "0xA?b", "0x1f?"}};
+        int idx = 0;
+        for (int ti = 0; ti < 3; ti++)
+                for (int sz = 1; sz <= 4; sz <<= 1)
+                        for (int pos = 0; pos < 2; pos++, idx++) {
+                                if (idx % nshards != shard) continue;
+                                build(TYPES[ti], sz, CAT_VAR_ACCESS_READ_WRITE, 2, pos, 0, idx & 1, 24);
+                                snprintf(SW.extra, sizeof SW.extra, "family=bytes type=%c size=%d pos=%d", TCH[ti], sz, pos);
+                                for (int k = 0; k < 7; k++)
+                                        for (int b = 1; b < 256; b++) {
+                                                if (b == '\n') continue;
+                                                char t[16]; int n = 0;
+                                                for (const char *p = TPL[ti][k]; *p; p++) t[n++] = (*p == '?') ? (char)b : *p;
+                                                if (run_text(t, n, 2, pos, 0)) return 1;
+                                        }
+                        }
+        return 0;
+}
+
 /* implicit-write command with variables: the argument text is everything after the name, '=' included */
 static const char ALPHA_I[] = "=+-0159xXaF, ?";
 static int family_implicit(int maxlen, int shard, int nshards)
@@ -262,6 +287,7 @@ int main(int argc, char **argv)
         int maxlen = sw_argi(argc, argv, "--maxlen", 4);
         int r;
         if (!strcmp(fam, "huge")) r = family_huge(SW.shard, SW.nshards);
+        else if (!strcmp(fam, "bytes")) r = family_bytes(SW.shard, SW.nshards);
         else if (!strcmp(fam, "implicit")) r = family_implicit(maxlen, SW.shard, SW.nshards);
         else if (!strcmp(fam, "all")) r = family_all(maxlen, SW.shard, SW.nshards);
         else r = family_bounds(SW.shard, SW.nshards);
